@@ -159,7 +159,7 @@ Definition dst_dispatch (e : env) (i : item) : item * list task :=
   let deletes := match dst_row i with Some (h, WN) => if negb (is_n h) then [TDelete] else [] | _ => [] end in
   match req i with
   | Pending =>
-      match update_pull (dst_state i) (src_active e) (src_has i) true with
+      match update_pull (dst_state i) (src_active e) (src_has i) true (is_x (dst_state i)) with
       | DCancel => (set_req i Cancelled, checks ++ deletes)
       | DSkip => (i, checks ++ deletes)
       | DPullForce => (i, checks ++ deletes ++ [TPullForce])
